@@ -16,6 +16,7 @@ type SeqOp struct {
 	V  string `json:"v"`
 	D  int64  `json:"d"`
 	Fn string `json:"fn"`
+	Ft int64  `json:"ft"` // slow user function: the clock advances by ft units while it runs (cache programs)
 	Lo int    `json:"lo"`
 	Hi int    `json:"hi"`
 }
@@ -151,10 +152,25 @@ func runSeqCache(p *SeqProgram, tr int, tw *TraceWriter) {
 		case "GetAndRefresh":
 			e.Rv, e.Ok = c.GetAndRefresh(op.K, d)
 		case "GetOrCompute":
-			e.Rv, e.Ok = c.GetOrCompute(op.K, func() string { e.N++; userYield(); return op.V }, d)
+			e.Rv, e.Ok = c.GetOrCompute(op.K, func() string {
+				e.N++
+				userYield()
+				if op.Ft > 0 {
+					e.Ft += op.Ft
+					vtime.Advance(op.Ft * unit)
+				}
+				return op.V
+			}, d)
 		case "Compute":
 			e.Fo = Nil
-			e.Rv, e.Ok = c.Compute(op.K, computeFn(op.Fn, op.V, &e.N, &e.Fo, &e.Fl), d)
+			inner := computeFn(op.Fn, op.V, &e.N, &e.Fo, &e.Fl)
+			e.Rv, e.Ok = c.Compute(op.K, func(o string, l bool) (string, bool) {
+				if op.Ft > 0 {
+					e.Ft += op.Ft
+					vtime.Advance(op.Ft * unit)
+				}
+				return inner(o, l)
+			}, d)
 		case "GetAndDelete":
 			e.Rv, e.Ok = c.GetAndDelete(op.K)
 		case "Delete":
